@@ -1,7 +1,7 @@
 """py2meth: translate straight-line methods / functions whose statements are library calls into Lean, the library calls getting
-their meaning from a hand-written "world" (`Model/LossWorld.lean`, `Model/DistPublicWorld.lean`).  Stdlib `ast` only; the source is
+their meaning from a hand-written "world" (`Model/LossWorld.lean`, `Model/DistPublicWorld.lean`, `Model/NetWorld.lean`).  Stdlib `ast` only; the source is
 parsed, never imported.  Sibling of `py2loop.py` (same discipline, different subset): every statement of every function listed in
-a typing sheet (`targets_losses.py`, `targets_dist_public.py`, `targets_families.py` with world `Model/FamiliesWorld.lean`) is translated or the function is REFUSED (an error entry in the
+a typing sheet (`targets_losses.py`, `targets_dist_public.py`, `targets_families.py` with world `Model/FamiliesWorld.lean`, `targets_net.py`, `targets_jaxtr.py`, `targets_bnafnet.py`) is translated or the function is REFUSED (an error entry in the
 generation report = a broken tie).
 
 The translation is TYPED: the sheet gives the Lean type of every parameter / class field and a table of primitives
@@ -12,11 +12,15 @@ types: `dist.log_prob(x, c)` on a point and on a batch are different world funct
   statements   `x = e`, `a, b = e`, `if c: raise E(...)` (a guard), `for pat in it: if c: raise E(...)` (a guard over `List.any`),
                `if/elif/else` joins (`e is None` / `e is not None` on an optional-typed pure expression is a `match` that narrows
                that expression in the branch), nested `def` (closures: captured variables become leading parameters; decorated
-               `@eqx.filter_vmap`; the `_check_shapes` decorator/wrapper pair), `return e` (last), docstrings.
+               `@eqx.filter_vmap`; the `_check_shapes` decorator/wrapper pair), `return e` (last), docstrings; nested tuple targets
+               `(a, _), _ = e` on a product-typed value (`_` discards); `InitPart`: the leading guards of an `__init__` and the values
+               finally assigned to listed attributes (see the class).
   expressions  names, `self.<field>`, generated properties / methods of `self`, int / bool / None / str constants, shape tuples
                (`()`, `(n,)`, `(*s, 2)`), list displays, `{"k": …}[m.__name__]` (a `match` on an enumeration), `a if c else b`,
                `x or None`, f-strings of strings, single-generator comprehensions, `vmap(f)(…)` / `eqx.filter_vmap(f)(…)`,
-               calls of generated functions, and the primitives of the sheet.
+               calls of generated functions, `x[:e]` / `x[e:]`, `None` as a tuple component (type `Unit`), `partial(obj.<generated
+               method>, kw=e, …)` as a function value, and the primitives of the sheet (a keyword spec `("reqlit", text)` must be
+               present literally).
 
 `Ctor` items (sheet `targets_families.py`): a class `__init__` translated statement by statement — local assignments, `self.<f> = e`,
 `self.<f>, x = e`, reads of already assigned `self.<f>`, calls of other generated constructors with positional / keyword arguments
@@ -217,6 +221,23 @@ class Ctor:
 
 
 @dataclasses.dataclass
+class InitPart:
+    """part of an `__init__` that is NOT a list of `self.<field> = <expr>` statements: the leading guards `if c: raise E(...)` and the
+    value finally assigned to each attribute of `fields`.  Emitted as `<lean> params : M (field₁ × field₂ × …)` (raises iff a guard
+    fires).  Accepted only if (i) the guards are the first statements, (ii) no other `raise` / `return` occurs anywhere in the body,
+    (iii) the LAST assignment of each listed attribute is a top-level `self.<field> = <expr>` (so it overwrites every earlier one)
+    whose right-hand side mentions only parameters that are never reassigned.  Every other statement is skipped: what it computes
+    (and whether a library constructor it calls raises) is outside this function."""
+    file: str
+    cls: str
+    lean: str
+    params: list            # (python name, type | UNUSED), without `self`
+    fields: list            # (attribute, type)
+    binders: str = ""
+    doc: str = ""
+
+
+@dataclasses.dataclass
 class V:
     ty: object = None
     code: str = ""
@@ -395,6 +416,10 @@ class Tr:
             if isinstance(spec, tuple) and spec and spec[0] == "lit":
                 if node is not None and ast.unparse(node) != spec[1]:
                     return No(f"keyword `{name}` must be `{spec[1]}`")
+                continue
+            if isinstance(spec, tuple) and spec and spec[0] == "reqlit":
+                if node is None or ast.unparse(node) != spec[1]:
+                    return No(f"keyword `{name}={spec[1]}` is required")
                 continue
             if node is None:
                 return No(f"keyword `{name}` is required")
@@ -670,8 +695,10 @@ class Tr:
                 return V(v.ty[1 + i], proj(paren(v.code), i, k))
         if isinstance(n.slice, ast.Slice):
             s = n.slice
+            if s.step is None and s.lower is not None and s.upper is None:
+                return self.match_prim("slice_from", [(v, n.value), (self.ex(s.lower), s.lower)], what=ast.unparse(n)[:60])
             if s.step is not None or s.lower is not None or s.upper is None:
-                raise Refuse("slice other than `[:e]`")
+                raise Refuse("slice other than `[:e]` / `[e:]`")
             return self.match_prim("slice_to", [(v, n.value), (self.ex(s.upper), s.upper)], what=ast.unparse(n)[:60])
         return self.match_prim("sub", [(v, n.value), (self.ex(n.slice), n.slice)], what=ast.unparse(n)[:60])
 
@@ -754,6 +781,10 @@ class Tr:
             return V(ret, code)
         f = n.func
         ftext = ast.unparse(f)
+        # ---- partial(self.<generated method>, kw=e, …): the method with those parameters fixed, as a function value
+        if isinstance(f, ast.Name) and f.id in getattr(self.sheet, "PARTIAL_FUNCS", ()) and f.id not in self.env:
+            self.need_root(f.id)
+            return self.partial_call(n)
         # ---- vmap(f)(args) / eqx.filter_vmap(f)(args)
         if isinstance(f, ast.Call) and ast.unparse(f.func) in self.sheet.VMAP_FUNCS and len(f.args) == 1 and not f.keywords:
             self.need_root(ast.unparse(f.func))
@@ -823,6 +854,37 @@ class Tr:
         # ---- library
         self.need_root(ftext)
         return self.match_prim(f"call:{ftext}", self.args_of(n), n.keywords, what=text[:60])
+
+    def partial_call(self, n):
+        text = ast.unparse(n)[:60]
+        if len(n.args) != 1 or any(k.arg is None for k in n.keywords) or not isinstance(n.args[0], ast.Attribute):
+            raise Refuse(f"`{text}`: only `partial(<obj>.<generated method>, kw=e, …)` is in the subset")
+        m = n.args[0]
+        recv = self.lean(self.ex(m.value))
+        head = recv.ty[0] if isinstance(recv.ty, tuple) else recv.ty
+        info = self.gen.methods.get((head, m.attr))
+        if info is None or info["prop"] or info["monadic"] or info["tyvars"]:
+            raise Refuse(f"`{text}`: `{m.attr}` is not a generated pure method of {head}")
+        params = info["params"][1:]                      # without the receiver
+        names = [p for p, _ in params]
+        fixed = {}
+        for k in n.keywords:
+            if k.arg not in names or k.arg in fixed or dict(params)[k.arg] == UNUSED:
+                raise Refuse(f"`{text}`: keyword `{k.arg}`")
+            fixed[k.arg] = paren(self.coerce(self.ex(k.value), dict(params)[k.arg]).code)
+        free, codes = [], []
+        for p, t in params:
+            if t == UNUSED:
+                raise Refuse(f"`{text}`: `{m.attr}` has an untyped parameter `{p}`")
+            if p in fixed:
+                codes.append(fixed[p])
+            else:
+                free.append((f"a{len(free)}", t))
+                codes.append(free[-1][0])
+        if not free:
+            raise Refuse(f"`{text}`: every parameter is fixed")
+        body = " ".join([info["lean"]] + (["W"] if info["usesW"] else []) + [paren(recv.code)] + codes)
+        return V(F([t for _, t in free], info["ret"]), f"fun {' '.join(a for a, _ in free)} => {body}")
 
     def call_gen(self, info, args, kws, what=""):
         """call of a generated function / method (`args` starts with the receiver for methods)"""
@@ -1002,6 +1064,8 @@ class Tr:
             for e, x in zip(tgt.elts, items):
                 self.bind_name(e.id, x)
             return
+        if isinstance(tgt, ast.Tuple) and any(isinstance(e, ast.Tuple) for e in tgt.elts):
+            return self.destructure(tgt, self.ex(st.value), ast.unparse(st.value)[:50])
         if isinstance(tgt, ast.Tuple) and all(isinstance(e, ast.Name) for e in tgt.elts):
             v = self.ex(st.value)
             if v.kind == "lean" and isinstance(v.ty, tuple) and v.ty[0] == "Tup":
@@ -1023,6 +1087,29 @@ class Tr:
                 self.bind_name(nm, x)
             return
         raise Refuse(f"assignment target `{ast.unparse(tgt)}`")
+
+    def destructure(self, tgt, v, what):
+        """nested tuple target `(a, _), _ = e` on a value of a (nested) product type; a target named `_` discards its component
+        (and `_` becomes undefined: a later read of it is refused)"""
+        v = self.lean(v)
+        t = v if re.fullmatch(r"t\d+", v.code) else self.emit_let(self.tmp(), v, ascribe=False)
+        names = [x.id for x in ast.walk(tgt) if isinstance(x, ast.Name) and x.id != "_"]
+        if len(names) != len(set(names)):
+            raise Refuse(f"a name is bound twice in the target `{ast.unparse(tgt)}`")
+
+        def go(pat, ty, code):
+            if isinstance(pat, ast.Name):
+                if pat.id == "_":
+                    self.env.pop("_", None)
+                    return
+                self.bind_name(pat.id, V(ty, code))
+            elif isinstance(pat, ast.Tuple) and isinstance(ty, tuple) and ty[0] == "Tup" and len(ty) - 1 == len(pat.elts):
+                for i, (p, pt) in enumerate(zip(pat.elts, ty[1:])):
+                    go(p, pt, proj(code, i, len(pat.elts)))
+            else:
+                raise Refuse(f"unpacking `{what}` of type {ty} into `{ast.unparse(pat)}`")
+
+        go(tgt, t.ty, t.code)
 
     def raise_term(self, st):
         e = st.exc
@@ -1687,6 +1774,62 @@ class Gen:
                                                tyvars=c.tyvars, prop=False, kind="top", captured=[], captured_py=[], file=c.file,
                                                bound_as=dict(c.bound_as))
 
+    def do_init_part(self, c):
+        node = self.find(c.file, c.cls + ".__init__")
+        fn = Fn(c.file, c.cls + ".__init__", c.lean, c.params, binders=c.binders)
+        tr = Tr(self, fn, node, c.lean, c.params)
+        tr.check_signature(node, True)
+        if node.decorator_list:
+            raise Refuse("decorated `__init__`")
+        tr.enter()
+        body = [b for b in node.body if not (isinstance(b, ast.Expr) and isinstance(b.value, ast.Constant))]
+        k = 0
+        while k < len(body) and tr.is_guard(body[k]):
+            tr.do_guard(body[k])
+            k += 1
+        rest = body[k:]
+        for st in rest:
+            for x in ast.walk(st):
+                if isinstance(x, (ast.Raise, ast.Return, ast.Try, ast.While, ast.With)):
+                    raise Refuse(f"`{type(x).__name__.lower()}` after the leading guards of `__init__`: `{ast.unparse(x)[:50]}`")
+        stored = {x.id for st in body for x in ast.walk(st) if isinstance(x, ast.Name) and isinstance(x.ctx, ast.Store)}
+        pnames = {p for p, t in c.params if t != UNUSED}
+
+        def assigns(st, f):
+            return any(isinstance(x, ast.Attribute) and isinstance(x.ctx, ast.Store) and x.attr == f and isinstance(x.value, ast.Name)
+                       and x.value.id == "self" for x in ast.walk(st))
+
+        vals = []
+        for f, t in c.fields:
+            idx = [i for i, st in enumerate(rest) if assigns(st, f)]
+            if not idx:
+                raise Refuse(f"`__init__` never assigns `self.{f}`")
+            st = rest[idx[-1]]
+            if not (isinstance(st, ast.Assign) and len(st.targets) == 1 and isinstance(st.targets[0], ast.Attribute)
+                    and isinstance(st.targets[0].value, ast.Name) and st.targets[0].value.id == "self" and st.targets[0].attr == f):
+                raise Refuse(f"the last assignment of `self.{f}` is not a top-level `self.{f} = <expr>`: `{ast.unparse(st)[:60]}`")
+            for x in ast.walk(st.value):
+                if isinstance(x, ast.Name) and (x.id not in pnames or x.id in stored):
+                    raise Refuse(f"`self.{f} = {ast.unparse(st.value)[:50]}` mentions `{x.id}`, which is not a never-reassigned parameter")
+            tr.pure_only += 1
+            try:
+                vals.append(tr.coerce(tr.ex(st.value), t))
+            finally:
+                tr.pure_only -= 1
+        if any(l[0] != "guard" for l in tr.blk.lines):
+            raise Refuse("a guard of `__init__` calls a primitive that can raise")
+        final = vals[0].code if len(vals) == 1 else "(" + ", ".join(v.code for v in vals) + ")"
+        monadic = bool(tr.blk.lines)
+        text = tr.compose(tr.blk.lines, final, monadic)
+        rty = " × ".join(paren(self.lean_ty(t)) for _, t in c.fields)
+        if monadic:
+            rty = self.sheet.MONAD["type"].format(paren(rty))
+        ptxt = " ".join(f"({tr.lname(p)} : {self.lean_ty(t)})" for p, t in c.params if t != UNUSED)
+        what = ", ".join(f"`self.{f}`" for f, _ in c.fields)
+        self.emit("\n".join([f"/-- `{c.file}` :: `{c.cls}.__init__`: the leading guards and the values finally assigned to {what}{(' — ' + c.doc) if c.doc else ''} -/",
+                             f"def {c.lean} {c.binders}{' ' if c.binders else ''}{ptxt} : {rty} :=", "  " + text, ""]))
+        self.check_bindings(c.file)
+
     def run(self):
         sheet, errors = self.sheet, []
         for (head, f), t in getattr(sheet, "FIELDS", {}).items():
@@ -1714,6 +1857,9 @@ class Gen:
                 if isinstance(item, Ctor):
                     self.do_ctor(item)
                     continue
+                if isinstance(item, InitPart):
+                    self.do_init_part(item)
+                    continue
                 node = self.find(item.file, item.qual)
                 is_method = "." in item.qual
                 if item.inline:
@@ -1739,7 +1885,7 @@ class Gen:
             except (Refuse, OSError, SyntaxError) as ex:
                 del self.out[mark:]
                 self.needed, self.needed_fns = saved
-                errors.append({"target": name, "error": f"{item.file}::{getattr(item, 'qual', getattr(item, 'name', '?'))}: {ex}"})
+                errors.append({"target": name, "error": f"{item.file}::{getattr(item, 'qual', getattr(item, 'name', getattr(item, 'cls', '?')))}: {ex}"})
                 self.emit(f"-- UNTRANSLATABLE {name}: {ex}\n")
                 if isinstance(item, Fn):
                     if "." in item.qual and item.self_ty is not None:
@@ -1752,7 +1898,7 @@ class Gen:
         return {"text": text, "errors": errors, "targets": [i.lean for i in sheet.ITEMS]}
 
 
-SHEETS = ["targets_losses", "targets_dist_public", "targets_jaxtr", "targets_families", "targets_bnafnet"]
+SHEETS = ["targets_losses", "targets_dist_public", "targets_jaxtr", "targets_families", "targets_bnafnet", "targets_net"]
 
 
 def generate(repo: str) -> dict:
